@@ -4,6 +4,7 @@ import PwVerif.Model.Frames
 import PwVerif.Model.Mro
 import PwVerif.Model.Pool
 import PwVerif.Model.Lifecycle
+import PwVerif.Model.Stream
 import PwVerif.Gen.RunLoops
 /-!
 Line-protocol driver: `lake env lean --run PwVerif/Driver.lean < cases.txt`.
@@ -290,6 +291,35 @@ def run (args : List String) : String :=
   | _ => "bad-op"
 end RunIO
 
+/-! ## c05: `c05 <defaults csv|-> <kwdefaults k:v,...|-> <enq>...`, enq = `<args csv|->;<kw k:v,...|->`
+output per enqueue: `<merged args csv>;<merged kw k:v sorted by key>` joined by `|` -/
+namespace StreamIO
+open PwVerif.Stream
+def kvs (s : String) : Option (List (Nat × Nat)) := PoolIO.parsePairs s
+def showKw (l : List (Nat × Nat)) : String :=
+  let sorted := l.foldr (fun x acc =>
+    let rec ins (x : Nat × Nat) : List (Nat × Nat) → List (Nat × Nat)
+      | [] => [x]
+      | y :: ys => if x.1 ≤ y.1 then x :: y :: ys else y :: ins x ys
+    ins x acc) []
+  ",".intercalate (sorted.map fun (k, v) => toString k ++ ":" ++ toString v)
+def run (args : List String) : String :=
+  match args with
+  | d :: kd :: enqs =>
+    match parseNats d, kvs kd with
+    | some d, some kd =>
+      let outs := enqs.map fun e =>
+        match e.splitOn ";" with
+        | [a, k] =>
+          match parseNats a, kvs k with
+          | some a, some k => PoolIO.csv (merge d a) ++ ";" ++ showKw (kwmerge kd k)
+          | _, _ => "bad"
+        | _ => "bad"
+      "|".intercalate outs
+    | _, _ => "bad-op"
+  | _ => "bad-op"
+end StreamIO
+
 def step (line : String) : String :=
   match (line.trimAscii.toString.splitOn " ").filter (· ≠ "") with
   | "c10" :: args => c10 args
@@ -298,6 +328,7 @@ def step (line : String) : String :=
   | "c13mro" :: args => c13mro args
   | "pool" :: args => PoolIO.run args
   | "run" :: args => RunIO.run args
+  | "c05" :: args => StreamIO.run args
   | "c13choice" :: args => c13choice args
   | _ => "bad-op"
 
